@@ -302,8 +302,10 @@ def r6_data_location(cx):
             oc = {i for i, t in b.origin_calls(raw) if call_is(t, r"tell$")}
             sub = any(call_is(t, r"Sub.*>::sub$") for _, t in b.origin_calls(raw))
             # data is written between the two tells; the tail offset recorded is the second tell
-            wd = [i for i, t in b.calls(r"write_cluster_data$")]
-            between = len(wd) == 1 and b.dominates(first[0], wd[0]) and b.dominates(wd[0], second[0])
+            # (the helper that writes the data, or -- when it has been merged into this function -- what it called)
+            wd = [i for i, t in b.calls(r"write_cluster_data$")] or [i for i, t in b.calls(r"::(lz4|lzma|zstd)_compress$", r"OutStream>::copy$")]
+            between = bool(wd) and all(b.dominates(first[0], w) for w in wd) and \
+                second[0] not in b.reachable(b.term(first[0]).get("t"), avoid=set(wd) | b.error_blocks() | b.panic_blocks())
             agg = [s for blk in b.blocks for s in blk["s"] if s["k"] == "assign" and s["rv"]["k"] == "agg" and s["rv"].get("adt", "").endswith("SizedOffset")]
             off_ok = len(agg) == 1 and any(o == ("call", second[0]) for o in b.origins(dict(zip(agg[0]["rv"]["fnames"], agg[0]["rv"]["fields"]))["offset"], through_calls=False))
             ok = oc == {first[0], second[0]} and sub and between and off_ok
@@ -468,7 +470,8 @@ def r11_blob_extraction(cx):
     # the terminal element is pushed once after the loop (elements stored inside the loop -- by `push` or by writing
     # into the spare capacity -- are the implicit 0 and the stored end offsets)
     push = [p for p in push if not _in_loop(gb, p[0])]
-    ok = len(push) == 1 and len(zero) == 1 and _in_loop(gb, zero[0][0])
+    # the implicit 0 is produced once: inside the loop (a `first` flag) or right before it (`split_first_mut`)
+    ok = len(push) == 1 and len(zero) == 1 and (_in_loop(gb, zero[0][0]) or push[0][0] in gb.reach_after(zero[0][0]))
     if ok:
         o = gb.origins(push[0][1]["args"][1])
         rd = sorted(i for i, t in gb.calls(r"Parser>::read_usized$") if not _in_loop(gb, i))
@@ -566,8 +569,14 @@ def r13_creator_addresses(cx):
     ok = len(addr) == 1 and len(info) == 1
     if ok:
         def forward_iter(c):
-            cb = F.body(c)
-            return bool(cb.calls(r"IntoIterator>::into_iter$")) and bool(cb.calls(r"slice::Iter<.*> as std::iter::Iterator>::next$")) and not cb.calls(r"::rev$|::skip$|::step_by$|::filter")
+            # the closure that serialises an element and the closures around it up to finalize (`|ser| v.iter().try_for_each(|x| ..)`)
+            chain = [c]
+            while chain[-1].get("parent") is not None and chain[-1]["parent"] != h["id"] and F.fns[chain[-1]["parent"]].get("kind") == "closure":
+                chain.append(F.fns[chain[-1]["parent"]])
+            bodies = [F.body(x) for x in chain]
+            loops = any(cb.calls(r"IntoIterator>::into_iter$") and cb.calls(r"slice::Iter<.*> as std::iter::Iterator>::next$") for cb in bodies) \
+                or any(cb.calls(r"slice::Iter<.*> as std::iter::Iterator>::(try_for_each|for_each)::<") for cb in bodies)
+            return bool(loops) and not any(cb.calls(r"::rev$|::skip$|::step_by$|::filter|::rev::<|::skip::<") for cb in bodies)
         ok = forward_iter(addr[0]) and forward_iter(info[0])
     cx.ob("R13", "R13/tables-written-in-index-order", ok, h, "finalize writes the cluster address table and the content info table by iterating the vectors forward (position = id)")
 
